@@ -125,15 +125,21 @@ class Reporter:
             "rule": self.rule_text or "one obligation per rule instance generated from the MIR / grammar of the current tree; "
                                       "non-trivial = verdict depended on a resolved callee, a derived value set or a grammar fact",
             "samples": self.samples[:12] if self.samples else [{"note": "no obligation generated"}],
-            "obligations": total,
-            "discharged": ok + n_known if self.level != "proof" else ok,
+            # an obligation that is listed as a known finding does not hold on this tree and is not claimed: it is reported on its own
+            # (known_findings_reported / known_finding_keys) and counts neither as an obligation of the claim nor as discharged
+            "obligations": total - n_known,
+            "discharged": ok,
             "checker_cmd": "./check %s --tier %s" % (self.pid, self.tier),
             "trusted_base": self.trusted or ["rustc nightly MIR construction and callee resolution", "the spec tables under /verif/spec"],
             "explanation": self.explanation or self.technique,
             "exhaustive": False,
             "analysed": self.analysed,
             "known_findings_reported": n_known,
+            "known_finding_keys": sorted(v["key"] for v in self.violations if (self.pid, v["key"]) in known),
         }
+        if n_known:
+            cov["explanation"] += (" On this tree %d further obligation(s) do not hold and are recorded as known findings (known_findings.txt, keys "
+                                   "under known_finding_keys): they are outside what this run claims; every other violation is reported." % n_known)
         cov.update(self.extra)
         ev = {
             "property_id": self.pid,
